@@ -49,7 +49,25 @@ pub fn run(sc: &Value) -> Value {
     let tmp = tempfile::tempdir().unwrap();
     let arch = tmp.path().join("a");
     let src = tmp.path().join("src");
-    write_archive(&arch, &sc["stored"]);
+    let via_backup = sc["stored_tree"].is_array();
+    if via_backup {
+        // the stored version is written by the real backup() from a tree with the stored side's metadata (what conserve itself
+        // records for such a tree), not directly in the documented format
+        let src0 = tmp.path().join("src0");
+        std::fs::create_dir_all(&src0).unwrap();
+        make_tree(&src0, &sc["stored_tree"]);
+        let a2 = arch.clone();
+        let rt = tokio::runtime::Builder::new_current_thread().enable_all().build().unwrap();
+        let ok = rt.block_on(async {
+            let archive = Archive::create_path(&a2).await.unwrap();
+            backup(&archive, &src0, &BackupOptions { small_file_cap: 1 << 10, ..BackupOptions::default() }, TestMonitor::arc()).await.is_ok()
+        });
+        if !ok {
+            return json!({"error": "stored version could not be written by backup"});
+        }
+    } else {
+        write_archive(&arch, &sc["stored"]);
+    }
     std::fs::create_dir_all(&src).unwrap();
     make_tree(&src, &sc["live"]);
     let include_unchanged = sc["include_unchanged"].as_bool().unwrap_or(false);
